@@ -116,12 +116,58 @@ def run(tier):
             s0, exc = items[0]
             chk.violation('%s rendering of the decoded instruction %s (%s) raises %s; %d operand/prefix signatures of this mnemonic' % (which, s0, mn, exc, len(items)),
                           dict(case='r ' + s0, rendering=which, exception=exc, mnemonic=mn, count=len(items), key=key))
+    asm_text_totality(chk, kf)
     chk.cov['rule'] = ('control-byte space enumerated from the dumped opcode trie: every opcode path x ModRM byte (all 256) x SIB classes (quick: 8 classes; thorough: all 256) x prefix sets '
                        '(none, 66, 67, one further set per opcode in quick; 12 sets in thorough) x 2..6 payload patterns; 1-2 byte dead opcodes; random 1..16-byte strings. '
                        'For a sample of accepted strings: the exact-length string, every truncation, stream offsets 1..3, both renderings. Non-trivial = string the model decodes')
     chk.cov['samples'] = [dict(bytes=s, model=m[:160], impl=i[:160]) for s, m, i in list(zip(strings, model, impl))[::max(1, len(strings) // 6)][:6]]
     return chk.finish(assumptions=['the opcode trie, mnemonic records and ModRM/SIB tables are dumped from the running library on every run (tie D); X86Dis.v is a hand transcription of _dis/get_afs/special_opcodes (tie H)',
                                    'the assembler half on arbitrary text (PLY parser) has no Gallina model: not claimed'])
+
+def asm_lines():
+    """deterministic set of assembler inputs: structured lines with boundary / oversized literals, and token sequences up to 8 tokens"""
+    import random
+    rng = random.Random(12345)      # fixed: the known-findings classes must not depend on VERIF_SEED
+    mns = ['mov', 'add', 'sub', 'xor', 'cmp', 'test', 'lea', 'push', 'pop', 'inc', 'neg', 'imul', 'shl', 'sar', 'ror', 'movzx', 'movsx', 'xchg', 'jmp', 'call', 'jz',
+           'ret', 'int', 'in', 'out', 'enter', 'fld', 'fadd', 'fstp', 'movd', 'movq', 'paddb', 'pshufd', 'cvtsi2sd', 'sete', 'cmovz', 'bt', 'bsf', 'shld', 'nop', 'loop', 'rep']
+    lits = [0, 1, -1, 127, 128, 255, 256, -128, -129, 32767, 32768, 65535, 65536, 2**31 - 1, 2**31, 2**32 - 1, 2**32, 2**32 + 5, 2**64, -2**31, -2**31 - 1]
+    lines = []
+    for m in mns:
+        for lit in lits:
+            for t in ('%s eax, %s', '%s DWORD PTR [ebx+%s], ecx', '%s ecx, DWORD PTR [%s]', '%s %s', '%s al, %s', '%s WORD PTR [esi], %s'):
+                for f in ('%d', '0x%x'):
+                    if f == '0x%x' and lit < 0: continue
+                    lines.append('i ' + t % (m, f % lit))
+            for t in ('%s $%s, %%eax', '%s %s(%%ebx), %%ecx', '%s $%s'):
+                lines.append('a ' + t % (m + 'l', '%d' % lit))
+    toks = ['mov', 'add', 'lea', 'push', 'jmp', 'eax', 'ebx', 'al', 'ax', 'es', 'st(0)', 'st', 'xmm0', 'mm1', 'cr0', 'BYTE', 'WORD', 'DWORD', 'QWORD', 'PTR', 'OFFSET', 'FLAT',
+            '[', ']', '+', '-', '*', ',', ':', '(', ')', '0', '1', '4', '8', '0x10', '255', 'foo', '.L1', '@', '$', '%', '%eax', '$5']
+    for i in range(4000):
+        n = rng.randint(1, 8)
+        lines.append(('i ' if i % 2 == 0 else 'a ') + ' '.join(rng.choice(toks) for _ in range(n)))
+    return lines
+
+def asm_text_totality(chk, kf):
+    lines = asm_lines()
+    out = run_impl('impl_asm.py', lines)
+    chk.cov['asm_text_lines'] = len(lines)
+    kinds = {}
+    classes = {}
+    for l, o in zip(lines, out):
+        k = 'candidates' if not o.startswith(('E ', 'X ')) else o
+        kinds[k] = kinds.get(k, 0) + 1
+        if o.startswith(('E ', 'X ')) and o != 'E ValueError':
+            first = l[2:].split()[0] if l[2:].split() else ''
+            cls = (l[0], o.split()[1], first if first.isalpha() else 'tokens')
+            classes.setdefault(cls, []).append(l)
+    chk.cov['asm_text_outcomes'] = kinds
+    for (syn, exc, mn), ls in sorted(classes.items()):
+        key = 'asm-error:%s:%s:%s' % (syn, exc, mn)
+        ls.sort(key=len)
+        if key in kf: chk.report_known(key, kf[key]['what'] + ' (%d lines in this run)' % len(ls))
+        elif len(chk.violations) < 400:
+            chk.violation('the assembler fails with %s (not its documented ValueError) on the %s-syntax line %r; %d lines of class %s' % (exc, 'Intel' if syn == 'i' else 'AT&T', ls[0][2:], len(ls), mn),
+                          dict(case=ls[0], exception=exc, count=len(ls), key=key))
 
 _MN = {}; _PF = {}
 def run_mn(s, strings, impl):
